@@ -146,6 +146,9 @@ class Stranded(Harness):
         # two chromosomes (the same symbolic sequence under two names would hide mix-ups: chr2 is its reverse), 3 intervals in an
         # order that is not its own inverse
         gs += [dict(kind="ACGTnEncoding", N=3, m=3, api="genomic_sequence", chroms=c) for c in ([1, 0, 0], [1, 1, 0])]
+        # history: another genome with the same chromosome names (other lengths, other bases) was queried earlier in this process
+        gs += [dict(kind="ACGTnEncoding", N=3, m=2, api="genomic_sequence", prior_genome=True),
+               dict(kind="ACGTnEncoding", N=3, m=2, api="genomic_sequence", chroms=[1, 0], prior_genome=True)]
         if tier == "quick":
             return [dict(kind=k, N=3, m=m) for k in ("ascii", "ACGTnEncoding") for m in (1, 2)] + gs
         return [dict(kind=k, N=N, m=m) for k in ("ascii", "ACGTnEncoding", "ACTGEncoding") for N in (4, 5) for m in (1, 2)][:-1] + gs + \
@@ -169,6 +172,11 @@ class Stranded(Harness):
             from bionumpy.genomic_data.genomic_sequence import GenomicSequence
             from bionumpy.datatypes import StrandedInterval
             chroms = skel.get("chroms", [0] * m)
+            if skel.get("prior_genome"):
+                import bionumpy as bnp
+                other = GenomicSequence.from_dict({"chr1": bnp.as_encoded_array("TTGCA", seq.encoding), "chr2": bnp.as_encoded_array("GGGA", seq.encoding)})
+                prior = other.extract_intervals(StrandedInterval(["chr1", "chr2", "chr1"], [0, 1, 2], [3, 4, 5], ["-", "-", "+"]), stranded=True)
+                assert prior.tolist() == ["CAA", "TCC", "GCA"], prior.tolist()
             gseq = GenomicSequence.from_dict({"chr1": seq, "chr2": seq[::-1]} if "chroms" in skel else {"chr1": seq})
             iv = StrandedInterval(["chr1" if c == 0 else "chr2" for c in chroms], ctx.arr([x[f"s{i}"] for i in range(m)], "int64"), ctx.arr([x[f"e{i}"] for i in range(m)], "int64"),
                                   EncodedArray(ctx.arr([x[f"neg{i}"] for i in range(m)], "uint8"), StrandEncoding))
